@@ -709,13 +709,15 @@ class DivisionOperator(BinaryOperator):
         return self.element_1.named_arrayed
 
 class NumericalMultiplicationOperator(BinaryOperator):
+    def __init__(self, element_1, element_2, index=None):
+        super().__init__(element_1, element_2, index)
+        self.el1_arrayed = isinstance(
+            self.element_1, BPTK_Py.sddsl.element.Element) and self.element_1._elements.vector_size() > 0
+
     def term(self, time="t"):
         if self.arrayed:
             if self.index == None:  # Can not resolve arrayed equations without index
                 return "0.0"
-
-            self.el1_arrayed = isinstance(
-                self.element_1, BPTK_Py.sddsl.element.Element) and self.element_1._elements.vector_size()
 
             if(self.el1_arrayed):
                 cur_el1 = self.element_1
@@ -723,8 +725,11 @@ class NumericalMultiplicationOperator(BinaryOperator):
                     cur_el1 = cur_el1[i]
                 return "({}) * ({})".format(self.element_2.term(time), cur_el1.term(time))
 
-            else:
-                return "(" + self.element_2.term(time) + ") * (" + self.element_1.term(time) + ")"
+            else:  # number * array: element_2 is the arrayed operand
+                cur_el2 = self.element_2
+                for i in self.index:
+                    cur_el2 = cur_el2[i]
+                return "({}) * ({})".format(cur_el2.term(time), self.element_1.term(time))
         else:
             return "(" + self.element_2.term(time) + ") * (" + self.element_1.term(time) + ")"
 
